@@ -14,6 +14,7 @@ for d in seeded/*/; do
   [ "$id" = "C07-g" ] && prop=C20   # needs a registered custom function
   [ "$id" = "C03-l" ] && prop=C16   # data reused and changed in place between calls
   [ "$id" = "C04-l" ] && prop=C16
+  [ "$id" = "C15-r" ] && prop=C16   # a process-wide cache: only a baseline from a fresh process differs
   [ "$id" = "C10-l" ] && prop=C16   # more than 64 distinct large sources in one process
   out=$(tools/try_seeded.sh $id $prop $tier 2>&1)
   rc=$(echo "$out" | grep -o "exit=[0-9]*" | tail -1)
